@@ -29,7 +29,7 @@ ASSUMPTIONS = [
     "float64, CPU",
     "reference R1 (vp/ref/cable.py): dense Laplacian with zero-capacitance Kirchhoff nodes, numpy.linalg.solve",
     "parameter ranges radius [0.1,20] um, length [0.5,500] um, Ra [10,2e4] ohm cm, cm [0.1,5] uF/cm2, g [1e-6,1e-2] S/cm2",
-    "acceptance: backward error <= 1e-8 and |v'-v_ref| <= (1e3*n*eps*cond + 1e-9)*max|v| + 1e-8 mV (1e-9: cancellation of the library's secant conductance (i(v+d)-i(v))/d, d = 1e-3 today, with a decade of margin); cases with cond>1e12 are filtered",
+    "acceptance: backward error <= 1e-8 and |v'-v_ref| <= (max(1e3*n*eps, 1e-11)*cond + 1e-9)*max|v| + 1e-8 mV (1e-11: backward error granted to the solvers, measured 8e-13 on stiff two-compartment models; 1e-9: cancellation of the library's secant conductance (i(v+d)-i(v))/d, d = 1e-3 today, with a decade of margin); cases with cond>1e12 are filtered",
     "a backend that raises is a counted refusal, as the property allows",
 ]
 TECHNIQUE = "property-based testing (Hypothesis) against an independent dense reference solver + differential across backends"
@@ -173,6 +173,14 @@ def one_step_integrate(spec, solver, backend):
     return out
 
 
+def bwd_unit(n):
+    """Backward error granted to a solver in the forward bound `bwd_unit * cond`: 1e3 n eps, but not below 1e-11
+    (45000 eps). The library eliminates zero-capacitance branch-point nodes and works per unit membrane area; on
+    two-compartment models with area ratios of 70 and voltages of 4e5 mV its componentwise backward error was measured
+    at 8e-13 = 3750 eps (all three backends, reference included), which is round-off, not a wrong scheme."""
+    return max(1e3 * n * np.finfo(float).eps, 1e-11)
+
+
 def judge(spec, tier="quick"):
     out = core.Outcome()
     cab, gm_mS, const = reference(spec)
@@ -196,6 +204,7 @@ def judge(spec, tier="quick"):
     nontriv = gm.is_nontrivial_structure(spec["morph"])
     struct_key = core.h([spec["morph"]["cells"], spec["morph"]["kind"]])
     results = {}
+    tols = {}
     for solver in SOLVERS:
         ref = cab.step(solver, dt, v0, gm_mS, const)
         for backend in BACKENDS:
@@ -211,10 +220,11 @@ def judge(spec, tier="quick"):
                 out.filtered += 1
                 continue
             scale = max(np.max(np.abs(got)), np.max(np.abs(ref)), 1.0)
-            fwd_tol = (1e3 * N * np.finfo(float).eps * cond + 1e-9) * scale + 1e-8
+            fwd_tol = (bwd_unit(N) * cond + 1e-9) * scale + 1e-8
             errv = float(np.max(np.abs(got - ref)))
             out.evals += 1
             results[(solver, backend)] = got
+            tols[(solver, backend)] = fwd_tol
             if nontriv:
                 out.nontrivial_keys.append(f"{struct_key}|{solver}|{backend}")
             # the backward-error clause needs a forward error above rounding of the voltage scale
@@ -231,7 +241,7 @@ def judge(spec, tier="quick"):
         for i in range(len(acc)):
             for j in range(i + 1, len(acc)):
                 d = float(np.max(np.abs(results[(solver, acc[i])] - results[(solver, acc[j])])))
-                if d > 2 * (1e3 * N * np.finfo(float).eps * 1e6 * 100 + 1e-8) and d > 1e-6:
+                if d > tols[(solver, acc[i])] + tols[(solver, acc[j])]:
                     out.violate(f"backends-differ:{solver}", f"{acc[i]} vs {acc[j]} under {solver}: {d:.3e} mV")
     # integrate route for the drawn configuration
     solver, backend = spec["integrate_cfg"]
@@ -246,7 +256,7 @@ def judge(spec, tier="quick"):
             be, cond = cab.backward_error(solver, dt, v0, got[:, 1], gm_mS, const)
             if cond <= 1e12:
                 scale = max(np.max(np.abs(got[:, 1])), 1.0) if np.isfinite(got[:, 1]).all() else 1.0
-                fwd_tol = (1e3 * N * np.finfo(float).eps * cond + 1e-9) * scale + 1e-8
+                fwd_tol = (bwd_unit(N) * cond + 1e-9) * scale + 1e-8
                 errv = float(np.max(np.abs(got[:, 1] - ref)))
                 e0 = float(np.max(np.abs(got[:, 0] - v0)))
                 out.evals += 1
